@@ -155,6 +155,7 @@ def main(argv):
     checker_cmds = []
     canary_notes = []
     bounded = []
+    known_only = 0
     for u in v_units:
         m = results[("v", u)]
         c = results[("c", u)]
@@ -184,14 +185,18 @@ def main(argv):
         solver_ms += (m["times"].get("smt_ms") or 0)
         nfun = len(m["functions"])
         failing_fns = set()
+        known_fns = set()
         for e in m["errors"]:
             oid = obligation_id(prop, u, e)
             k = match_known(known, prop, oid)
-            failing_fns.add(e.get("function"))
             if k:
                 known_hits.append((k, oid))
+                known_fns.add(e.get("function"))
             else:
+                failing_fns.add(e.get("function"))
                 violations.append((u, oid, e, m))
+        # obligations that fail only because of a listed known finding are reported separately, not as discharged
+        known_only += len(known_fns - failing_fns)
         obligations += m["verified"] + len(failing_fns)
         discharged += m["verified"]
         for f in m["functions"][:400]:
@@ -289,6 +294,7 @@ def main(argv):
             solver_time_ms=solver_ms,
             backends=sorted({"verus 0.2026.09.13 / z3" for _ in v_units} | {"kani 0.68 / cbmc 6.11" for _ in k_groups}),
             known_findings=[k["what"] for k, _ in known_hits],
+            obligations_failing_only_for_known_findings=known_only,
             undecided=undecided,
             clauses_not_claimed=P.get("not_claimed", []),
             exhaustive=False,
